@@ -9,3 +9,6 @@ reg("C02", "undo")
 
 # C05 Termination
 reg("C05", "undo")
+
+# C19 Immutable and thread-safe
+reg("C19", "types", level="proof")
